@@ -120,6 +120,10 @@ class World:
         return values, kwargs
 
 
+def sp_inputs(case: dict, sp: dict) -> set:
+    return {k for k, _ in case["dicts"][sp["values"]] + sp["kwargs"]}
+
+
 def _status(r: Any) -> str:
     return str(getattr(r.status, "value", r.status)).lower()
 
@@ -137,7 +141,31 @@ class C18(Prop):
     budgets = {"quick": 200, "thorough": 4000}
 
     # ------------------------------------------------------------ generation
+    @staticmethod
+    def _single_cloned_mutated(case: dict) -> bool:
+        """A map over exactly ONE item whose cloned broadcast value is mutated by a node."""
+        for sp in case["specs"]:
+            w = sp.get("wrap", {})
+            if not (w.get("mapOver") and w.get("single") and w.get("clone")):
+                continue
+            for nd in sp["nodes"]:
+                if nd["eff"]:
+                    s_ = nd["srcs"][nd["eff"][0]]
+                    k = s_.get("provided")
+                    if k in sp_inputs(case, sp) and k not in w["mapOver"] and (w["clone"] is True or k in w["clone"]):
+                        return True
+        return False
+
     def cases(self, rng: random.Random, tier: str) -> Iterable[dict]:
+        forced_single = 3        # whatever the seed: maps over exactly one item with a cloned broadcast value that a node mutates
+        for c in self._cases(rng, tier):
+            if forced_single:
+                if not self._single_cloned_mutated(c):
+                    continue
+                forced_single -= 1
+            yield c
+
+    def _cases(self, rng: random.Random, tier: str) -> Iterable[dict]:
         while True:
             cells: list[list[int]] = []
             dicts: list[list] = []
@@ -194,6 +222,8 @@ class C18(Prop):
                     shape["wrap"] = {"mapOver": mo}
                     if clone is not None:
                         shape["wrap"]["clone"] = clone
+                    if rng.random() < 0.35:
+                        shape["wrap"]["single"] = True      # a map over exactly one item: cloning is about the CALLER's object, not about siblings
                 elif wrap_kind == "mapped":
                     shape["wrap"] = {}
                 if "wrap" in shape and rng.random() < 0.4:
@@ -260,6 +290,8 @@ class C18(Prop):
             if not mo:
                 return values
             ref_of = {id(c): i for i, c in enumerate(w.cells)}
+            if spec["wrap"].get("single"):
+                return {k: ([v] if k in mo else v) for k, v in values.items()}
             return {k: ([v, w.cells[ref_of[id(v)] + 1]] if k in mo else v) for k, v in values.items()}
 
         def outcome(rid: int, fn: Any) -> Any:
@@ -344,6 +376,15 @@ class C18(Prop):
                     if c["before"][j] != case["cells"][s["default"]]:
                         return (f"run {c['rid']} node n{c['sid']}: default-valued argument {j} arrived as {c['before'][j]}, "
                                 f"the signature default is {case['cells'][s['default']]} — state leaked from an earlier call")
+                elif "provided" in s and specs[c["rid"]].get("wrap", {}).get("mapOver"):
+                    # a broadcast value of a cloning map: every item works on its own copy, never on the caller's object — with one item too
+                    wr = specs[c["rid"]]["wrap"]
+                    k = s["provided"]
+                    mine = dict((kk, rr) for kk, rr in case["dicts"][specs[c["rid"]]["values"]] + specs[c["rid"]]["kwargs"])
+                    if k in mine and k not in wr["mapOver"] and (wr.get("clone") is True or (isinstance(wr.get("clone"), list) and k in wr["clone"])):
+                        if c["refs"][j] == mine[k]:
+                            return (f"run {c['rid']} node n{c['sid']}: the broadcast value {k!r} of a map with clone={wr.get('clone')!r} arrived as the caller's own object "
+                                    f"({len(wr['mapOver'])} mapped name(s), {'one item' if wr.get('single') else 'two items'})")
                 elif "bound" in s:
                     if c["refs"][j] != s["bound"]:
                         return f"run {c['rid']} node n{c['sid']}: bound argument {j} is not the very object that was bound (a copy or another object)"
@@ -423,6 +464,8 @@ class C18(Prop):
             entries = case["dicts"][sp["values"]] + sp["kwargs"]
             fwd = [[k, {"provided": k}] for k, _ in entries if k not in mo]
             items = [[[k, r] for k, r in entries if k in mo], [[k, r + 1] for k, r in entries if k in mo]] if mo else None
+            if mo and sp["wrap"].get("single"):
+                items = items[:1]
             sub = {"sub": {"inner": fns, "fwd": fwd, "items": items, "clone": sp["wrap"].get("clone"), "outs": [nd["out"] for nd in sp["nodes"]]}}
             specs.append({"nodes": [sub], "values": sp["values"], "kwargs": sp["kwargs"]})
         # the real order of top-level steps: a wrapped run contributes ONE step (its sub node), when its first inner call happens
